@@ -153,6 +153,8 @@ func patterns(maxSeg int) []string {
 	out = append(out, "//a", "/a/", "/a//b", "/:x/", "//", "/a/*/b")
 	// registrations that are rejected after part of the pattern has been walked
 	out = append(out, "/a/:x/:x", "/:x/b/:x", "/a/:", "/:")
+	// literal segments that merely begin like a parameter or the wildcard
+	out = append(out, "/*x", "/a/*b", "/**", "/*x/:y")
 	return out
 }
 
@@ -183,6 +185,7 @@ func requestPaths() []string {
 	rec("", 4, []string{"a", ":x", ""})
 	// segments spelled like plausible internal placeholder keys must be ordinary text
 	rec("", 3, []string{"a", ":param", ":any", "*", ":"})
+	rec("", 3, []string{"a", "*x", "*b", "**", "*"})
 	for _, p := range []string{"", "*", "a", "a/b", "a/", ":x", "ab/c", "\x00", "/a\x00b", "/%2F", "/a b", "/é/a"} {
 		add(p)
 	}
@@ -206,6 +209,7 @@ type bench struct {
 	handlers []httpd.HandlerFunc
 	noRoute  httpd.HandlerFunc
 	cur      *obs
+	panicNext bool // the next handler invoked panics instead of observing
 	names    []string
 }
 
@@ -221,8 +225,19 @@ func newBench(specs []routeSpec) *bench {
 	return b
 }
 
+// handlerPanic is what a handler panics with when the harness asks it to (net/http recovers
+// such panics and goes on serving with the same Mux)
+const handlerPanic = "handler panic (asked for by the harness)"
+
 func (b *bench) observe(i int, s *httpd.Store) {
 	o := b.cur
+	if b.panicNext {
+		b.panicNext = false
+		if i >= 0 {
+			s.W.WriteHeader(503)
+		}
+		panic(handlerPanic)
+	}
 	o.calls = append(o.calls, i)
 	o.info = s.I
 	o.params = map[string]string{}
@@ -320,10 +335,52 @@ func (b *bench) checkTable(table []int, paths []string, st *stats) {
 		} else {
 			st.OrderChecks++
 		}
-		if !b.judgeTable(mux, p, registered, "{"+strings.Join(d, ", ")+"}", paths, st, pi == 0) {
+		desc := "{" + strings.Join(d, ", ") + "}"
+		if !b.judgeTable(mux, p, registered, desc, paths, st, pi == 0) {
 			return
 		}
+		if pi == 0 && len(registered) > 0 {
+			// a handler panic (one per kind of route in the table, and one in the no-route handler)
+			// must leave the Mux dispatching as before
+			for _, pp := range append(matchingPaths(b, registered), "/no/such/route/at/all") {
+				b.panicNext = true
+				o := b.serve(mux, pp, b.specs[registered[0]].method)
+				b.panicNext = false
+				if o.paniced != nil && o.paniced != handlerPanic {
+					st.Viols = append(st.Viols, vcommon.Violation{Scenario: "dispatch", Fingerprint: fmt.Sprintf("%s|panicking-handler|%q", desc, pp),
+						Message: fmt.Sprintf("C04: table %s, request %q whose handler panics: ServeHTTP panicked on its own account: %v", desc, pp, o.paniced), Witness: map[string]any{"table": desc, "path": pp}})
+					return
+				}
+			}
+			if !b.judgeTable(mux, p, registered, desc+" after requests whose handlers panicked", paths, st, false) {
+				return
+			}
+		}
 	}
+}
+
+// matchingPaths gives, for every registered route, a request path it matches.
+func matchingPaths(b *bench, registered []int) []string {
+	var out []string
+	for _, i := range registered {
+		var segs []string
+		for _, sg := range strings.Split(b.specs[i].pattern, "/") {
+			switch {
+			case sg == "":
+			case sg == "*":
+				segs = append(segs, "w", "z")
+			case sg[0] == ':':
+				segs = append(segs, "v"+sg[1:])
+			default:
+				segs = append(segs, sg)
+			}
+			if sg == "*" {
+				break
+			}
+		}
+		out = append(out, "/"+strings.Join(segs, "/"))
+	}
+	return out
 }
 
 func (b *bench) judgeTable(mux *httpd.Mux, calls, table []int, desc string, paths []string, st *stats, first bool) bool {
